@@ -1,8 +1,12 @@
 package op
 
 import (
+	"maps"
+	"slices"
+
 	"github.com/berquerant/crd/errorx"
 	"github.com/berquerant/crd/note"
+	"gopkg.in/yaml.v3"
 )
 
 type Instance struct {
@@ -35,6 +39,26 @@ func (m Meta) Get(key string) string {
 
 func (m Meta) Set(key, value string) {
 	m[key] = value
+}
+
+// yamlMergeKey is written unquoted by yaml.v3 and then read back as a merge key, not as text.
+const yamlMergeKey = "<<"
+
+func (m Meta) MarshalYAML() (any, error) {
+	if _, ok := m[yamlMergeKey]; !ok {
+		return map[string]string(m), nil
+	}
+	node := &yaml.Node{Kind: yaml.MappingNode}
+	for _, k := range slices.Sorted(maps.Keys(m)) {
+		key, value := &yaml.Node{}, &yaml.Node{}
+		key.SetString(k)
+		if k == yamlMergeKey {
+			key.Style = yaml.DoubleQuotedStyle
+		}
+		value.SetString(m[k])
+		node.Content = append(node.Content, key, value)
+	}
+	return node, nil
 }
 
 func NewMeta(keyValues ...string) *Meta {
